@@ -59,7 +59,7 @@ def r2(ctx):
     cm = P.find_fn("EvaluatedMove::chess_move", "chess_api")
     # fix the score to one constructor: the move half does not depend on it (checked by R3 for all five)
     score = ("adt", "chess_engine::score::Score", "Min", ())
-    mv = ("param", 0, "mv")
+    mv = ("param", 0, "a0")
     roundtrip(ctx, "optional move", [new, cm], 6, arg_index=0, args=[mv, score])
     # direct conversions too (used by callers that bypass EvaluatedMove)
     f = conv(P, f"core::option::Option<{MOVE}>", API + "StableOptionalChessMove")
@@ -73,7 +73,7 @@ def r3(ctx):
     new = P.find_fn("EvaluatedMove::new", "chess_api")
     sc = P.find_fn("EvaluatedMove::score", "chess_api")
     mv = ("adt", "core::option::Option", "None", ())
-    score = ("param", 1, "score")
+    score = ("param", 1, "a1")
     roundtrip(ctx, "score", [new, sc], 5, arg_index=1, args=[mv, score])
 
 
